@@ -21,6 +21,12 @@ CLAIMED = {
              note='Bounded: N<=N_ext<=16 (thorough 128), ncols 1..3 (4), in place or distinct, buffer NULL or caller.', technique='field-level symbolic execution of LLVM IR + z3', ref='4/C05'),
  'C19': dict(text='Inductive argument over call histories: frame assertion after every call (constructor-time fields unchanged; r/r_ NULL or the tables of some size), and from every reachable state class each of NTT/INTT/extendPol with symbolic data and symbolic nphase/nblock returns what a fresh object returns (oracles of C03-C05).',
              note='Bounded: object domain 2^s, s<=3 (thorough 5), ncols 1..2 (3). The induction covers histories of any length inside the bound.', technique='one inductive step per (state class, method) by field-level symbolic execution + z3', ref='4/C19'),
+ 'C09': dict(text='Every scalar Goldilocks3 operation (all overloads, all aliasing patterns) executed at field level over the proved scalar contracts with real integer products; coefficient-wise congruence with the schoolbook product reduced by x^3 = x + 1 decided by z3 (NIA on the Z-lift); inv: inverted value = ±norm(a) and a·inv(a) ≡ (1,0,0) under the base-inverse contract; isOne/fromU64/toU64 bit-precise; batchInverse as ring identities with an abstract inverse symbol.',
+             note='Loop-free ops: no bound. batchInverse lengths 1..4 (6). Trusted: non-zero element has non-zero norm (field theory).', technique='field-level symbolic execution of LLVM IR + z3 nonlinear integer arithmetic', ref='4/C09'),
+ 'C10': dict(text='inv: one inductive step of the real Euclid loop body from a havocked loop head under the invariant (ranges, t·a ≡ r, newt·a ≡ newr with explicit witnesses), entry and exit obligations, refusal of both representations of zero; exp: inductive step with POW uninterpreted + recursion axioms; div and by-value wrappers over the inv contract. No iteration bound.',
+             note='Trusted lemmas: Euclid ends at gcd; p prime (Pratt certificate checked); the binary-exponentiation recursion defines b^e. Inductive-step counterexamples are confirmed by a concrete native call before being reported.', technique='loop-cut symbolic execution (inductive step) of LLVM IR + z3', ref='4/C10'),
+ 'C15': dict(text='All conversions and predicates executed bit-precisely; gmpxx expression templates interpreted from the IR with the GMP C entry points as integer contracts, so big-integer and string inputs are an arbitrary mathematical integer Z; goals: residue mod p and canonical range inward, canonical / centred value outward, toS32 success exactly on [-2^31, 2^31), round trips; counterexamples replayed on a natively built helper.',
+             note='No bound (all uint64/int64/int32/Z). Outside: digits GMP parses/prints, std::string internals (tagged moves).', technique='symbolic execution of LLVM IR with integer contracts for GMP + z3', ref='4/C15'),
 }
 def main():
     props = [json.loads(l) for l in open(os.path.join(V, 'properties.jsonl'))]
